@@ -29,14 +29,15 @@ def gen(rng):
     if kind == 'a-range':
         elems = list(range(n))
     return {'kind': kind, 'elems': elems, 'fail': fail,
-            'pd': rng.choice([0, TICK / 2, 5 * TICK]), 'cd': rng.choice([0, TICK / 2, 5 * TICK])}
+            'pd': rng.choice([0, TICK / 2, 5 * TICK, 5 * TICK, 50 * TICK, 300 * TICK]),
+            'cd': rng.choice([0, TICK / 2, 5 * TICK, 5 * TICK, 50 * TICK])}
 
 
 class IterHarness:
     def __init__(self, A):
         self.A = A
 
-    def run(self, scen, strategy):
+    def run(self, scen, strategy, delays=None):
         A = self.A
         kind = scen['kind']
         elems = scen['elems']
@@ -164,7 +165,11 @@ class IterHarness:
 
             s.spawn(consumer, 'C')
 
-        r = simrt.execute(main, strategy, max_steps=60000, watchdog=60.0)
+        def pre(s):
+            if delays:
+                s.line_delays = [dict(d) for d in delays]
+
+        r = simrt.execute(main, strategy, max_steps=60000, watchdog=60.0, pre=pre, max_virtual=90.0)
         r.extra = box
         return r
 
@@ -173,7 +178,7 @@ class C16(Check):
     pid = 'C16'
     anchors = ('to_async_iter', 'to_sync_iter')
     budget = {'quick': 35.0, 'thorough': 500.0}
-    SIZES = {'quick': 36000, 'thorough': 600000}
+    SIZES = {'quick': 90000, 'thorough': 1200000}
     assumptions = [
         'Engine A: ThreadPoolExecutor and queue.Queue inside aiuti.asyncio are replaced by sim equivalents whose '
         'worker threads are registered sim threads; line-level interleaving of producer thread and consumer',
@@ -205,7 +210,12 @@ class C16(Check):
         else:
             strat = simrt.Strategy('stall', p=0.1, thread=rng.choice(['C', 'pool1of2']), k=rng.randrange(1, 150),
                                    seed=rng.randrange(1 << 30))
-        r = self.h.run(scen, strat)
+        delays = None
+        if rng.random() < 0.3:
+            # long preemption of the consumer or of the producer thread at one line of the bridge
+            delays = [{'thread': rng.choice(['C', 'C', 'pool1of2']), 'qual': rng.choice(['to_async_iter', 'to_sync_iter']),
+                       'nth': rng.randint(1, 40), 'd': rng.choice([TICK, 10 * TICK, 100 * TICK])}]
+        r = self.h.run(scen, strat, delays)
         res = CaseResult()
         res.sig = r.signature
         res.cov = {k: c for k, c in r.sched.line_cov.items() if k[0].startswith(self.anchors)}
@@ -220,13 +230,15 @@ class C16(Check):
             return res
         st = res.stats
         st['executions'] += 1
+        if r.sched.delays_fired:
+            st['long_delay_injected'] += 1
         kind = scen['kind']
         st[f'kind_{kind}'] += 1
         box = r.extra
         elems, fail = scen['elems'], scen['fail']
         exp = elems if fail is None else elems[:fail]
         got = box['got']
-        if r.verdict in ('deadlock', 'stepbound'):
+        if r.verdict in ('deadlock', 'stepbound', 'timebound'):
             res.violate('C16:consumer-hangs', f'{r.verdict}: iteration never finished', blocked=r.blocked,
                         received=len(got), expected=len(exp), fail=fail)
         else:
@@ -250,7 +262,8 @@ class C16(Check):
                 if 'C' in box['src_threads']:
                     res.violate('C16:iterated-on-loop-thread', 'a synchronous iterator was advanced on the event-loop thread')
                 gaps = [b - a for a, b in zip(box['ticks'], box['ticks'][1:])]
-                if scen['pd'] > TICK:
+                # (a delay injected into the loop thread itself stalls the ticker by construction)
+                if scen['pd'] > TICK and not any(d[0] == 'C' for d in r.sched.delays_fired):
                     st['responsiveness_judged'] += 1
                     if gaps and max(gaps) > TICK + EPS:
                         res.violate('C16:loop-blocked', 'the event loop did not run while the synchronous iterator was blocked',
@@ -270,8 +283,8 @@ class C16(Check):
         return res
 
     def floors(self, tier):
-        k = 1 if tier == 'quick' else 15
-        return {'nontrivial': 10000 * k, 'failing_source': 5000 * k, 'responsiveness_judged': 1000 * k,
+        k = 2 if tier == 'quick' else 30
+        return {'nontrivial': 10000 * k, 'long_delay_injected': 1000 * k, 'failing_source': 5000 * k, 'responsiveness_judged': 1000 * k,
                 'kind_s-agen': 1000 * k, 'kind_a-gen': 1000 * k, 'fail_at_start': 500 * k, 'fail_at_end': 500 * k,
                 'fail_at_middle': 500 * k}
 
